@@ -486,6 +486,11 @@ class virtualNode(pb.Root):
         yield self._get_global_lock()
 
         try:
+            # The caller may hold a reference to a register that has been deleted in the meantime
+            # (absorbed into another register by a two-qubit gate, emptied by a measurement, or deleted)
+            if self.registers.get(reg.num) is not reg:
+                self._logger.error("Attempt to create a qubit in a register that no longer exists.")
+                raise quantumError("No such register at this node.")
             if len(self.virtQubits) >= self.maxQubits:
                 self._logger.error("Maximum number of virtual qubits reached.")
                 raise noQubitError("Max virtual qubits reached")
